@@ -233,6 +233,9 @@ func runSyncer(prop, tier string, r *rng) {
 			emptiedWindowCase(prop, 20, 23)
 			emptiedWindowCase(prop, 10, 30)
 		}
+		if os.Getenv("VERIF_NO_ADDRACE") == "" {
+			addRaceCase(prop)
+		}
 		rangesCases(prop, tier, r)
 		// several pending ranges, later heads extending the last one beyond the running sync's target, on a store whose
 		// flush loop is busy (slow commits): what the sync loop hands to the store must not change under its feet
@@ -754,6 +757,97 @@ func emptiedWindowCase(prop string, storeTo, a int) {
 	close(loopGo)
 	run.quiesce()
 	emit("%s kind=emptiedwindow store=%d a=%d => start=ok parked=%s loop=%s gossip=%s head1=%s %s", prop, storeTo, a, parked, lp, gres, hres, run.observe())
+	_ = run.s.Stop(ctx)
+	c2, cancel3 := context.WithTimeout(ctx, time.Second)
+	_ = run.st.Stop(c2)
+	cancel3()
+}
+
+// addRaceCase: `ranges.Add(12)` has read the head of the last pending range (11) and is stopped there (hook
+// `ranges.add.read`); the sync loop, which was fetching the gap below that range, stores 10..11 and drains the range
+// (hook `sync.removed`); Add goes on and appends 12 to the drained range; the loop looks at the pending set again and
+// is stopped while it holds what `Get` returned (header 12 parks its Height() call in processHeaders); head 13 arrives;
+// the loop goes on. Every accepted head must end up in the Store.
+func addRaceCase(prop string) {
+	ctx := context.Background()
+	run := newSyncRun(5)
+	sctx, cancel := context.WithTimeout(ctx, 3*time.Second)
+	err := run.s.Start(sctx)
+	cancel()
+	if err != nil {
+		emit("%s kind=addrace => start=err", prop)
+		return
+	}
+	run.quiesce()
+	run.script = []string{"holdtok", "holdtok"}
+	waitReq := func(n int64) bool {
+		for k := 0; k < 1500 && run.nreq.Load() < n; k++ {
+			time.Sleep(time.Millisecond)
+		}
+		return run.nreq.Load() >= n
+	}
+	verdict := func(h *vhdr.Header) string {
+		if err := run.sub.verifier(ctx, h); err != nil {
+			return "refuse"
+		}
+		return "accept"
+	}
+	var armedA, armedB atomic.Bool
+	parkedA, goA, parkedB, goB := make(chan struct{}), make(chan struct{}), make(chan struct{}), make(chan struct{})
+	var onceA, onceB sync.Once
+	store.VerifSetScheduler(func(_ context.Context, point string) {
+		switch {
+		case point == "ranges.add.read" && armedA.Load():
+			onceA.Do(func() { close(parkedA); <-goA })
+		case point == "sync.removed" && armedB.Load():
+			onceB.Do(func() { close(parkedB); <-goB })
+		}
+	})
+	defer store.VerifSetScheduler(nil)
+	steps := ""
+	ok := func(name string, b bool) {
+		if !b {
+			steps += name + ","
+		}
+	}
+	v7 := verdict(run.chain[6])
+	ok("req1", waitReq(1))
+	v10, v11 := verdict(run.chain[9]), verdict(run.chain[10])
+	run.tokCh <- struct{}{}
+	ok("req2", waitReq(2))
+	c := run.chain[11]
+	gated := &vhdr.Header{Chain: c.Chain, H: c.H, T: c.T, Prev: c.Prev, Salt: c.Salt, VK: c.VK,
+		ParkIn: "processHeaders", ParkDirect: true, Parked: make(chan struct{}), Release: make(chan struct{})}
+	armedA.Store(true)
+	g12 := make(chan string, 1)
+	go func() { g12 <- verdict(gated) }()
+	wait := func(ch chan struct{}) bool {
+		select {
+		case <-ch:
+			return true
+		case <-time.After(3 * time.Second):
+			return false
+		}
+	}
+	ok("parkA", wait(parkedA))
+	armedB.Store(true)
+	run.tokCh <- struct{}{}
+	ok("parkB", wait(parkedB))
+	close(goA)
+	v12 := "hang"
+	select {
+	case v12 = <-g12:
+	case <-time.After(3 * time.Second):
+	}
+	close(goB)
+	ok("parkC", wait(gated.Parked))
+	v13 := verdict(run.chain[12])
+	close(gated.Release)
+	run.quiesce()
+	if steps == "" {
+		steps = "-"
+	}
+	emit("%s kind=addrace => start=ok missed=%s verdicts=%s,%s,%s,%s,%s newest=13 %s", prop, steps, v7, v10, v11, v12, v13, run.observe())
 	_ = run.s.Stop(ctx)
 	c2, cancel3 := context.WithTimeout(ctx, time.Second)
 	_ = run.st.Stop(c2)
